@@ -39,6 +39,8 @@ type Contract struct {
 	Key       string
 	Requires  []Clause
 	Ensures   []Clause
+	AssumeIface map[int]string // interface-level ensures clauses this implementation does not prove (index -> reason)
+	EnsuresB  []Clause // evaluated natively on bounded universes only (never proved, never assumed)
 	Loops     map[string]*LoopSpec
 	Decreases string
 	Modifies  []string
@@ -87,6 +89,14 @@ func parseContracts(path string, into map[string]*Contract) error {
 			continue
 		}
 		word, rest := splitWord(txt)
+		// optional property tag: ensures [C05 C07] expr
+		tag := ""
+		if (word == "ensures" || word == "ensures_bounded" || word == "requires") && strings.HasPrefix(rest, "[") {
+			if j := strings.Index(rest, "]"); j > 0 {
+				tag = rest[1:j]
+				rest = strings.TrimSpace(rest[j+1:])
+			}
+		}
 		switch word {
 		case "contract":
 			cur = &Contract{Key: rest, Loops: map[string]*LoopSpec{}, Line: ln + 1, File: path}
@@ -100,7 +110,20 @@ func parseContracts(path string, into map[string]*Contract) error {
 			}
 			cur.Requires = append(cur.Requires, Clause{Text: rest, Line: ln + 1})
 		case "ensures":
-			cur.Ensures = append(cur.Ensures, Clause{Text: rest, Line: ln + 1})
+			cur.Ensures = append(cur.Ensures, Clause{Text: rest, Line: ln + 1, Tag: tag})
+		case "assume_iface":
+			// assume_iface <clause index> <reason>: this implementation leaves the interface clause to the bounded check
+			w2, r2 := splitWord(rest)
+			var idx int
+			if _, err := fmt.Sscanf(w2, "%d", &idx); err != nil {
+				return fmt.Errorf("%s:%d: assume_iface needs a clause index", path, ln+1)
+			}
+			if cur.AssumeIface == nil {
+				cur.AssumeIface = map[int]string{}
+			}
+			cur.AssumeIface[idx] = r2
+		case "ensures_bounded":
+			cur.EnsuresB = append(cur.EnsuresB, Clause{Text: rest, Line: ln + 1, Tag: tag})
 		case "decreases":
 			cur.Decreases = rest
 		case "modifies":
@@ -547,3 +570,19 @@ func (p *Program) loopsOf(f *ssa.Function) ([]*LoopInfo, error) {
 	}
 	return out, nil
 }
+
+// clauseFor reports whether a clause belongs to the property being checked ("" = all).
+func clauseFor(c Clause, prop string) bool {
+	if prop == "" || c.Tag == "" {
+		return true
+	}
+	for _, t := range strings.Fields(c.Tag) {
+		if t == prop {
+			return true
+		}
+	}
+	return false
+}
+
+// currentProperty restricts obligations and bounded clauses to those tagged for it.
+var currentProperty string
